@@ -109,6 +109,8 @@ func checkC04(c *Ctx) {
 		}
 		c.R.Check(bad == "", ruleB2, fname(fn)+":count-within-input", pos, fmt.Sprintf("0 <= n <= len(src) at all %d returns", len(by[fn])), "the byte count returned can lie outside [0, len(src)]: "+bad)
 	}
+	// well-formed CONNECT packets are not turned away because of their flag byte
+	c.connectFlagRefusals()
 }
 
 // decodeWithinPacket (B12): a successful Decode consumed nothing beyond the packet it decoded.
